@@ -201,7 +201,7 @@ pub(crate) mod verif_array {
     //@ob name=C14.all.litnum.0.e0.p0 harness=k_c14_all_litnum_0_e0_p0 props=C14,C04,C06,C01 tier=quick strength=bounded bound="literal number (not a collection); 0 elements; element/predicate success pattern e=0b0 p=0b0; values and predicate answers symbolic" fns=op::array::all stubs=4 timeout=200 cutdrop=1 group=medium
     //@ desc="all: truth value, error cases, short-circuit evaluation log and scoping (literal-array elements evaluated against the outer data, computed elements passed as data UNPARSED, predicate sees the element) equal the spec"
     quant_harness!(k_c14_all_litnum_0_e0_p0, true, 5, 0, 0, 0, 3);
-    //@ob name=C14.all.cerr.0.e0.p0 harness=k_c14_all_cerr_0_e0_p0 props=C14,C04,C06,C01 tier=thorough strength=bounded bound="collection evaluation fails; 0 elements; element/predicate success pattern e=0b0 p=0b0; values and predicate answers symbolic" fns=op::array::all stubs=4 timeout=200 cutdrop=2 group=medium
+    //@ob name=C14.all.cerr.0.e0.p0 harness=k_c14_all_cerr_0_e0_p0 props=C14,C04,C06,C01 tier=off strength=bounded bound="collection evaluation fails; 0 elements; element/predicate success pattern e=0b0 p=0b0; values and predicate answers symbolic" fns=op::array::all stubs=4 timeout=200 cutdrop=2 group=medium
     //@ desc="all: truth value, error cases, short-circuit evaluation log and scoping (literal-array elements evaluated against the outer data, computed elements passed as data UNPARSED, predicate sees the element) equal the spec"
     quant_harness!(k_c14_all_cerr_0_e0_p0, true, 6, 0, 0, 0, 3);
     //@ob name=C14.all.cbool.0.e0.p0 harness=k_c14_all_cbool_0_e0_p0 props=C14,C04,C06,C01 tier=thorough strength=bounded bound="computed boolean (not a collection); 0 elements; element/predicate success pattern e=0b0 p=0b0; values and predicate answers symbolic" fns=op::array::all stubs=4 timeout=200 cutdrop=2 group=medium
@@ -246,7 +246,7 @@ pub(crate) mod verif_array {
     //@ob name=C14.some.litnum.0.e0.p0 harness=k_c14_some_litnum_0_e0_p0 props=C14,C04,C06,C01 tier=quick strength=bounded bound="literal number (not a collection); 0 elements; element/predicate success pattern e=0b0 p=0b0; values and predicate answers symbolic" fns=op::array::some stubs=4 timeout=200 cutdrop=1 group=medium
     //@ desc="some: truth value, error cases, short-circuit evaluation log and scoping (literal-array elements evaluated against the outer data, computed elements passed as data UNPARSED, predicate sees the element) equal the spec"
     quant_harness!(k_c14_some_litnum_0_e0_p0, false, 5, 0, 0, 0, 3);
-    //@ob name=C14.some.cerr.0.e0.p0 harness=k_c14_some_cerr_0_e0_p0 props=C14,C04,C06,C01 tier=thorough strength=bounded bound="collection evaluation fails; 0 elements; element/predicate success pattern e=0b0 p=0b0; values and predicate answers symbolic" fns=op::array::some stubs=4 timeout=200 cutdrop=2 group=medium
+    //@ob name=C14.some.cerr.0.e0.p0 harness=k_c14_some_cerr_0_e0_p0 props=C14,C04,C06,C01 tier=off strength=bounded bound="collection evaluation fails; 0 elements; element/predicate success pattern e=0b0 p=0b0; values and predicate answers symbolic" fns=op::array::some stubs=4 timeout=200 cutdrop=2 group=medium
     //@ desc="some: truth value, error cases, short-circuit evaluation log and scoping (literal-array elements evaluated against the outer data, computed elements passed as data UNPARSED, predicate sees the element) equal the spec"
     quant_harness!(k_c14_some_cerr_0_e0_p0, false, 6, 0, 0, 0, 3);
     //@ob name=C14.some.cbool.0.e0.p0 harness=k_c14_some_cbool_0_e0_p0 props=C14,C04,C06,C01 tier=thorough strength=bounded bound="computed boolean (not a collection); 0 elements; element/predicate success pattern e=0b0 p=0b0; values and predicate answers symbolic" fns=op::array::some stubs=4 timeout=200 cutdrop=2 group=medium
@@ -511,10 +511,10 @@ pub(crate) mod verif_array {
     //@ob name=C13.map.other.0.p0 harness=k_c13_map_other_0_p0 props=C13,C04,C06,C01 tier=quick strength=bounded bound="collection outcome other; 0 elements; expression success pattern 0b0; element values and expression values symbolic" fns=op::array::map stubs=4 timeout=300 cutdrop=2 group=medium
     //@ desc="map: collection evaluated once against the outer data, expression once per element with the element itself as data, in order; result = the expression values in order (same length); null collection is empty, other non-arrays and failing evaluations are errors"
     mapfilter_harness!(k_c13_map_other_0_p0, true, 3, 0, 0, 3);
-    //@ob name=C13.map.err.0.p0 harness=k_c13_map_err_0_p0 props=C13,C04,C06,C01 tier=thorough strength=bounded bound="collection outcome err; 0 elements; expression success pattern 0b0; element values and expression values symbolic" fns=op::array::map stubs=4 timeout=300 cutdrop=2 group=medium
+    //@ob name=C13.map.err.0.p0 harness=k_c13_map_err_0_p0 props=C13,C04,C06,C01 tier=off strength=bounded bound="collection outcome err; 0 elements; expression success pattern 0b0; element values and expression values symbolic" fns=op::array::map stubs=4 timeout=300 cutdrop=2 group=medium
     //@ desc="map: collection evaluated once against the outer data, expression once per element with the element itself as data, in order; result = the expression values in order (same length); null collection is empty, other non-arrays and failing evaluations are errors"
     mapfilter_harness!(k_c13_map_err_0_p0, true, 4, 0, 0, 3);
-    //@ob name=C13.map.new.0.p0 harness=k_c13_map_new_0_p0 props=C13,C04,C06,C01 tier=thorough strength=bounded bound="collection outcome new; 0 elements; expression success pattern 0b0; element values and expression values symbolic" fns=op::array::map stubs=4 timeout=300 cutdrop=2 group=medium
+    //@ob name=C13.map.new.0.p0 harness=k_c13_map_new_0_p0 props=C13,C04,C06,C01 tier=off strength=bounded bound="collection outcome new; 0 elements; expression success pattern 0b0; element values and expression values symbolic" fns=op::array::map stubs=4 timeout=300 cutdrop=2 group=medium
     //@ desc="map: collection evaluated once against the outer data, expression once per element with the element itself as data, in order; result = the expression values in order (same length); null collection is empty, other non-arrays and failing evaluations are errors"
     mapfilter_harness!(k_c13_map_new_0_p0, true, 0, 0, 0, 3);
     //@ob name=C13.map.raw.2.p1 harness=k_c13_map_raw_2_p1 props=C13,C04,C06,C01 tier=off strength=bounded bound="collection outcome raw; 2 elements; expression success pattern 0b1; element values and expression values symbolic" fns=op::array::map stubs=4 timeout=300 cutdrop=2 group=medium
@@ -535,10 +535,10 @@ pub(crate) mod verif_array {
     //@ob name=C13.filter.other.0.p0 harness=k_c13_filter_other_0_p0 props=C13,C04,C06,C01 tier=quick strength=bounded bound="collection outcome other; 0 elements; expression success pattern 0b0; element values and expression values symbolic" fns=op::array::filter stubs=4 timeout=300 cutdrop=2 group=medium
     //@ desc="filter: collection evaluated once against the outer data, expression once per element with the element itself as data, in order; result = exactly the elements whose value is truthy, unchanged, in order; null collection is empty, other non-arrays and failing evaluations are errors"
     mapfilter_harness!(k_c13_filter_other_0_p0, false, 3, 0, 0, 3);
-    //@ob name=C13.filter.err.0.p0 harness=k_c13_filter_err_0_p0 props=C13,C04,C06,C01 tier=thorough strength=bounded bound="collection outcome err; 0 elements; expression success pattern 0b0; element values and expression values symbolic" fns=op::array::filter stubs=4 timeout=300 cutdrop=2 group=medium
+    //@ob name=C13.filter.err.0.p0 harness=k_c13_filter_err_0_p0 props=C13,C04,C06,C01 tier=off strength=bounded bound="collection outcome err; 0 elements; expression success pattern 0b0; element values and expression values symbolic" fns=op::array::filter stubs=4 timeout=300 cutdrop=2 group=medium
     //@ desc="filter: collection evaluated once against the outer data, expression once per element with the element itself as data, in order; result = exactly the elements whose value is truthy, unchanged, in order; null collection is empty, other non-arrays and failing evaluations are errors"
     mapfilter_harness!(k_c13_filter_err_0_p0, false, 4, 0, 0, 3);
-    //@ob name=C13.filter.new.0.p0 harness=k_c13_filter_new_0_p0 props=C13,C04,C06,C01 tier=thorough strength=bounded bound="collection outcome new; 0 elements; expression success pattern 0b0; element values and expression values symbolic" fns=op::array::filter stubs=4 timeout=300 cutdrop=2 group=medium
+    //@ob name=C13.filter.new.0.p0 harness=k_c13_filter_new_0_p0 props=C13,C04,C06,C01 tier=off strength=bounded bound="collection outcome new; 0 elements; expression success pattern 0b0; element values and expression values symbolic" fns=op::array::filter stubs=4 timeout=300 cutdrop=2 group=medium
     //@ desc="filter: collection evaluated once against the outer data, expression once per element with the element itself as data, in order; result = exactly the elements whose value is truthy, unchanged, in order; null collection is empty, other non-arrays and failing evaluations are errors"
     mapfilter_harness!(k_c13_filter_new_0_p0, false, 0, 0, 0, 3);
     //@ob name=C13.filter.raw.2.p1 harness=k_c13_filter_raw_2_p1 props=C13,C04,C06,C01 tier=off strength=bounded bound="collection outcome raw; 2 elements; expression success pattern 0b1; element values and expression values symbolic" fns=op::array::filter stubs=4 timeout=300 cutdrop=2 group=medium
